@@ -1,5 +1,5 @@
 (* C15: evaluation of the model on recorded cases (correspondence check). *)
-From CJ Require Import Common.Base C15.Model C15.ModelName C15.ModelObf C15.ModelAny C15.ModelDns C15.ModelB32 C15.ModelExch C15.ModelPb C15.ModelDot C15.ModelSeq.
+From CJ Require Import Common.Base C15.Model C15.ModelName C15.ModelObf C15.ModelAny C15.ModelDns C15.ModelB32 C15.ModelExch C15.ModelPb C15.ModelDot C15.ModelSeq C15.ModelStream.
 
 Definition obs := (bool * bytes * bool * bytes)%type.
 
@@ -375,7 +375,10 @@ Inductive vcase :=
    dec_each_d / enc_each / dec_each): codec e on the inputs xs, compared position by position with what the caller
    holds after the last encoder call and with what the decoder calls returned; XOR with the pads read off the encodings *)
 | CSeqD (e : N) (xs : list bspec) (os : list obs_spec)
-| CSeqXor (ts : list bytes) (os : list obs).
+| CSeqXor (ts : list bytes) (os : list obs)
+(* the AES helpers of obfuscate.go have the stream-cipher shape of ModelStream: ks / gks = what they made of as many
+   zero octets (the keystream; for GCM followed by an authenticator), out / gout = what they made of m *)
+| CStream (m ks out gks gout : bytes).
 
 (* codecs: 0 request framing, 1 response framing, 4 TXT, 11 the Nil obfuscator *)
 Definition seq_codec (e : N) : (bytes -> option bytes) * (bytes -> option bytes) :=
@@ -410,6 +413,12 @@ Definition chk_seq_xor (ts : list bytes) (os : list obs) : bool :=
   let cs := enc_each xor_enc pads xs in
   (length ts =? length os)%nat && all3 held_matches cs (dec_each xor_dec (map fst xs) cs) (map lit_obs os).
 
+Definition nth_stream (ks : bytes) (i : nat) : byte := nth i ks 0.
+Definition chk_stream (m ks out gks gout : bytes) : bool :=
+  (blen ks =? blen m) && bytes_eqb (ctr_of (fun _ _ => nth_stream ks) [] [] m) out &&
+  (blen gks =? blen m + 16) && (blen gout =? blen m + 16) &&
+  bytes_eqb (take (blen m) (seal_of (fun _ _ => nth_stream gks) (fun _ _ _ => []) [] [] m)) (take (blen m) gout).
+
 Definition chk1 (c : vcase) : bool :=
   match c with
   | CFmt op d o => chk_fmt (op, d, o)
@@ -437,6 +446,7 @@ Definition chk1 (c : vcase) : bool :=
   | CBatch _ => false      (* batches do not nest *)
   | CSeqD e xs os => chk_seq_d e xs os
   | CSeqXor ts os => chk_seq_xor ts os
+  | CStream m ks out gks gout => chk_stream m ks out gks gout
   end.
 
 Definition chk (c : vcase) : bool :=
